@@ -9,7 +9,7 @@ Open Scope Q_scope.
 Definition tol : Q := 1 # 1000000000.
 Definition qclose (a b : Q) : bool := Qle_bool (Qabs (Qred (a - b))) (tol * (1 + Qabs (Qred a))).
 
-Fixpoint list_close {A} (f : A -> A -> bool) (a b : list A) : bool :=
+Fixpoint list_close {A B} (f : A -> B -> bool) (a : list A) (b : list B) : bool :=
   match a, b with
   | [], [] => true
   | x :: a', y :: b' => f x y && list_close f a' b'
@@ -68,8 +68,12 @@ Definition oq_close (a b : oq) : bool :=
   | Some x, Some y => qclose x y
   | _, _ => false
   end.
-Definition agree_oseries (m : oseries) (o : option oseries) : bool :=
-  match o with Some b => list_close oq_close m b | None => false end.
+Definition agree_oseries (m : res oseries) (o : option oseries) : bool :=
+  match m, o with
+  | Ok a, Some b => list_close oq_close a b
+  | Err, None => true
+  | _, _ => false
+  end.
 Definition one_inst (r : res inst) : res panel := match r with Ok i => Ok [i] | Err => Err end.
 
 (* what the model says (documented function); the int interval segmenter has an open finding:
@@ -106,8 +110,8 @@ Definition check (c : case) : bool :=
   match c with
   | CRife feats ivs p o => agree_tagged (rife_apply feats ivs p) o
   | CImpute m l o =>
-      agree_oseries (impute m l) o ||
-      match m with IDrift => agree_oseries (impute_drift_faithful l) o | _ => false end
+      agree_oseries (impute_res m l) o ||
+      match m with IDrift => agree_oseries (Ok (impute_drift_faithful l)) o | _ => false end
   | CISegInt k pfit p o =>
       agree (model_says c) o || agree (iseg_int_faithful k pfit p) o
   | _ => agree (model_says c) (impl_says c)
